@@ -15,6 +15,9 @@ package main
 //	return .., continue, break, switch with constant cases (as an if-chain)
 //	identifiers, literals, selectors, calls, indexing, &&, ||, !, comparisons, + - on ints,
 //	struct literals, make(map..), nil
+//	strings.HasPrefix / TrimPrefix / CutPrefix, `+` on strings (GoLite instance),
+//	`return f(..)` handing on all results of a call;
+//	identifiers compared with nil are nil-able without being listed in optVars
 //
 // The run-time conventions are those of lean/NotationModel/GoLite.lean.
 
@@ -301,6 +304,12 @@ func (g *g2l) call(x *ast.CallExpr) string {
 		}
 	}
 	x = &ast.CallExpr{Fun: x.Fun, Lparen: x.Lparen, Args: kept, Ellipsis: x.Ellipsis, Rparen: x.Rparen}
+	fun := x.Fun
+	if ie, ok := fun.(*ast.IndexExpr); ok {
+		// f[T](args), an explicit instantiation of a generic function: the type argument is dropped
+		fun = ie.X
+		name = exprText(fun)
+	}
 	args := func() string {
 		var a []string
 		for _, e := range x.Args {
@@ -323,6 +332,12 @@ func (g *g2l) call(x *ast.CallExpr) string {
 		return "(GoLite.containsAny " + args() + ")"
 	case "strings.TrimSpace":
 		return "(GoLite.trimSpace " + args() + ")"
+	case "strings.HasPrefix":
+		return "(GoLite.hasPrefix " + args() + ")"
+	case "strings.TrimPrefix":
+		return "(GoLite.trimPrefix " + args() + ")"
+	case "strings.CutPrefix":
+		return "(GoLite.cutPrefix " + args() + ")"
 	case "strings.Cut":
 		// one-character separators only
 		if bl, ok := x.Args[1].(*ast.BasicLit); ok && bl.Kind == token.STRING {
@@ -361,7 +376,7 @@ func (g *g2l) call(x *ast.CallExpr) string {
 		return "(" + g.expr(x.Args[0]) + " ++ [" + strings.Join(a, ", ") + "])"
 	}
 	// conversion T(x) to a named string type: the identity
-	switch fn := x.Fun.(type) {
+	switch fn := fun.(type) {
 	case *ast.SelectorExpr:
 		if id, ok := fn.X.(*ast.Ident); ok && g.pkgs[id.Name] {
 			if len(x.Args) == 0 {
@@ -443,7 +458,7 @@ func g2lType(g *g2l, e ast.Expr) string {
 		case "error":
 			return "(Option GoLite.Err)"
 		}
-		return x.Name
+		return g2lIdent(x.Name)
 	case *ast.SelectorExpr:
 		if id, ok := x.X.(*ast.Ident); ok {
 			return g2lIdent(id.Name) + "." + g2lIdent(x.Sel.Name)
@@ -854,6 +869,13 @@ func (g *g2l) stmt(o *g2lOut, ind int, s ast.Stmt) {
 	case *ast.ForStmt:
 		g.forStmt(o, ind, x)
 	case *ast.ReturnStmt:
+		// `return f(..)` handing on all results of a call
+		if len(x.Results) == 1 && len(g.t.retOpt) > 1 && len(g.t.captures) == 0 {
+			if c, ok := x.Results[0].(*ast.CallExpr); ok {
+				o.line(ind, "return "+g.call(c))
+				return
+			}
+		}
 		if len(x.Results) != len(g.t.retOpt) {
 			g.fail(s, "return with %d values, %d expected", len(x.Results), len(g.t.retOpt))
 		}
@@ -895,7 +917,12 @@ func (g *g2l) stmt(o *g2lOut, ind int, s ast.Stmt) {
 	case *ast.ExprStmt:
 		if c, ok := x.X.(*ast.CallExpr); ok {
 			// x.Add(v) on a set-like value: handled through callSubst "recv.Method!" entries
-			if f, ok := g.t.callSubst[callName(c)+"!"]; ok {
+			f, ok := g.t.callSubst[callName(c)+"!"]
+			if sel, isSel := c.Fun.(*ast.SelectorExpr); !ok && isSel {
+				// "*.Method!": the same for whatever the receiver variable is called
+				f, ok = g.t.callSubst["*."+sel.Sel.Name+"!"]
+			}
+			if ok {
 				sel := c.Fun.(*ast.SelectorExpr)
 				r := g.expr(sel.X)
 				var a []string
@@ -1111,6 +1138,19 @@ func g2lTranslate(t *g2lTarget) string {
 	for _, v := range t.optVars {
 		g.opt[v] = true
 	}
+	// an identifier that is compared with nil somewhere in the body holds a nil-able value
+	// (so that renaming `err` does not need a new target description)
+	ast.Inspect(fd.Body, func(n ast.Node) bool {
+		if be, ok := n.(*ast.BinaryExpr); ok && (be.Op == token.EQL || be.Op == token.NEQ) {
+			if id, ok := be.X.(*ast.Ident); ok && isNil(be.Y) {
+				g.opt[id.Name] = true
+			}
+			if id, ok := be.Y.(*ast.Ident); ok && isNil(be.X) {
+				g.opt[id.Name] = true
+			}
+		}
+		return true
+	})
 	for _, v := range t.ownedVars {
 		g.owned[v] = true
 	}
